@@ -4,15 +4,13 @@
 patch="$1"; shift
 cd /repo || exit 2
 if [ -n "$(git status --porcelain)" ]; then echo "REPO DIRTY, refusing"; exit 2; fi
-if ! git apply --check "$patch" 2>/dev/null; then
-  if ! git apply --3way --check "$patch" 2>/dev/null; then echo "PATCH DOES NOT APPLY: $patch"; exit 3; fi
-fi
-git apply "$patch" 2>/dev/null || git apply --3way "$patch"
+if ! git apply --check "$patch" 2>/dev/null; then echo "PATCH DOES NOT APPLY: $patch"; exit 3; fi
+git apply "$patch"
 for id in "$@"; do
   out=$(cd /verif && VERIF_NO_EVIDENCE=1 ./check "$id" 2>&1); rc=$?
   n=$(echo "$out" | grep -c '^VIOLATION')
   echo "== $id exit=$rc violations=$n"
   echo "$out" | grep -A2 'VIOLATED\|UNDECIDED' | grep -v '^--' | head -${SHOW:-12}
 done
-git checkout -- . ; git reset -q
+git reset -q --hard HEAD; git clean -fdq
 git status --porcelain | head -3
